@@ -270,7 +270,12 @@ def c05(tier, seed, replay, keep):
 
 
 def c07(tier, seed, replay, keep):
-    return engine_check("C07", tier, seed, replay, scen.c07, rule_tworuns, "4/C07", ASSUME_COMMON, keep)
+    def short_runs(binary, wd):
+        sc = scen.c07_short(tier, seed)
+        out = os.path.join(wd, "short.ndjson")
+        core.run_harness(binary, sc, out, core.ENGINE_EVENTS, timeout=900, extra=("-test.short",))
+        return sc, [out]
+    return engine_check("C07", tier, seed, replay, scen.c07, rule_tworuns, "4/C07", ASSUME_COMMON, keep, more_traces=short_runs)
 
 
 def deadline_runner(gen, tier, seed):
